@@ -6,7 +6,7 @@ From HP Require Import Bytes Sha1 Wire ParamsOK Broker BrokerSpec BrokerLemmas.
 Import ListNotations.
 
 Section Inv.
-Variable store : ident -> lookup.
+Variable okrow : ident -> row -> Prop.   (* i may authenticate with row r (for one fixed synchronous store: store i = LRow r) *)
 Variable async_store : bool.
 
 (* ---- what an accepted action needs in order to be legitimate ---------------------------------- *)
@@ -14,7 +14,7 @@ Definition act_ok (t : list action) (a : action) : Prop :=
   match a with
   | AConn q n => conn_nonce t q = None
   | AAuth q i r dg => exists n, conn_nonce t q = Some n /\ dg = sha1 (n ++ r_secret r) /\
-                                (async_store = false -> store i = LRow r)
+                                (async_store = false -> okrow i r)
   | ASub q c => exists i r, last_auth t q = Some (i, r) /\ In c (r_sub r)
   | AUnsub q c => last_auth t q <> None
   | APub p i c d => exists r, last_auth t p = Some (i, r) /\ In c (r_pub r)
